@@ -2,7 +2,7 @@
 Line-protocol driver for the C12 model (observed / cached properties).
 
   case  :=  shape | nobjects | step ; step ; …
-  shape :=  expr cached variant static ra rv rp getter undef fail [inherit]
+  shape :=  expr cached variant static ra rv rp getter undef fail [inherit [extras]]
             expr    paths joined by '+'; a path is letters joined by '.':
                     links i (inst) k (kids.items) b (byname.items);
                     leaf v (value) a (aux) I (inst) K (kids.items) B (byname.items) T (tags.items)
@@ -20,9 +20,14 @@ Line-protocol driver for the C12 model (observed / cached properties).
                     cached, the same over two levels, base cached / sub uncached, redeclared with another
                     expression in the subclass); `expr` and `cached` are the EFFECTIVE ones, which is all the
                     model needs: the field is ignored here
+            extras  - | letters: A = class-level `_anytrait_changed` listener (D = dynamic defaults
+                    returning shared objects: implementation + oracle only, never sent here)
   step  :=  sv o f x | si o t | sk o [ids] | mk o op [ids] e | sb o {k:id,…} | mb o op {…} e
-          | st o [ints] | mt o op [ints] e | rd | at | dt | cp kind | K w/w/…
+          | st o [ints] | mt o op [ints] e | rd | at [kind] | dt [kind] | cp kind | K w/w/…
+            at / dt kind: t on_trait_change(h, 'p') | o observe(h, 'p') | n on_trait_change(h) (no name:
+            object-level) ; without kind: t and o together (and the `rp` reader)
   out   :=  per step:  read c<calls> x[nested] s[static notes] t[otc notes] o[observe notes]
+                       n[name-less on_trait_change notes] y[_anytrait_changed notes]
 
 Run:  lake env lean --run TraitsVerif/Driver/Property.lean
 -/
@@ -96,6 +101,7 @@ structure Shape where
   getter : String
   undef : Bool
   fail : Option (Nat × Exc)
+  staticAny : Bool := false
 
 def parseFail (s : String) : Option (Option (Nat × Exc)) :=
   if s = "-" then some none
@@ -116,6 +122,10 @@ def parseShape (s : String) : Option Shape :=
   | [e, c, v, sl, ra, rv, rp, g, u, f, inh] =>
     if inh = "-" ∨ inh = "bu" ∨ inh = "b2" ∨ inh = "bc" ∨ inh = "rd" then parseShape10 e c v sl ra rv rp g u f
     else none
+  | [e, c, v, sl, ra, rv, rp, g, u, f, inh, ex] =>
+    if (inh = "-" ∨ inh = "bu" ∨ inh = "b2" ∨ inh = "bc" ∨ inh = "rd") ∧ (ex = "-" ∨ ex = "A") then
+      (parseShape10 e c v sl ra rv rp g u f).map (fun sh => { sh with staticAny := ex = "A" })
+    else none
   | _ => none
 
 def mkEnv (sh : Shape) : Env String :=
@@ -128,7 +138,7 @@ def mkEnv (sh : Shape) : Env String :=
       | some (k, e) => if n = k then .error e else .ok (g h)
       | none => .ok (g h),
     isUndef := fun v => v == "U",
-    cached := sh.cached, legacy := sh.legacy, staticL := sh.static,
+    cached := sh.cached, legacy := sh.legacy, staticL := sh.static, staticAny := sh.staticAny,
     postInit := Source.postInit,
     fires := firesSpec sh.E 0,
     sibPre := fun m => decide (m.obj = 0) &&
@@ -163,6 +173,13 @@ def parseField : String → Option Field
   | _ => none
 
 
+/-- A driver step: a model step, or a change of one kind of dynamic listener
+(`t` and `o` are both trait-level listeners on the property: `St.dyn` is their
+disjunction; which of the two is present only matters for what is printed). -/
+inductive DStep where
+  | model (st : Step)
+  | listen (kind : String) (on : Bool)
+
 def parseStep (s : String) : Option Step :=
   match words s with
   | ["sv", o, f, x] => do pure (.change ⟨← o.toNat?, .scalar (← parseField f) (← key? x), false⟩)
@@ -174,8 +191,6 @@ def parseStep (s : String) : Option Step :=
   | ["st", o, l] => do pure (.change ⟨← o.toNat?, .tags (← intList? l), false⟩)
   | ["mt", o, _, l, e] => do pure (.change ⟨← o.toNat?, .tags (← intList? l), ← bool? e⟩)
   | ["rd"] => some .read
-  | ["at"] => some .attach
-  | ["dt"] => some .detach
   | ["cp", _] => some .copy
   | ["K"] => some (.construct [])
   | ["K", ws] => do pure (.construct (← (ws.splitOn "/").mapM parseWrite))
@@ -192,28 +207,45 @@ def showRes : Except Exc String → String
   | .ok v => v
   | .error e => s!"!{e.name}"
 
-def showStepOut (read : String) (s : St String) (notes : List (Note String)) (nested : List (Except Exc String)) :
-    String :=
-  let st := (notes.filter (·.toStatic)).map showNote
-  let dy := (notes.filter (·.toDyn)).map showNote
-  s!"{read} c{s.calls} x[{"^".intercalate (nested.map showRes)}] s[{"^".intercalate st}] t[{"^".intercalate dy}] o[{"^".intercalate dy}]"
+def parseDStep (s : String) : Option DStep :=
+  match words s with
+  | ["at", k] => if k = "t" ∨ k = "o" ∨ k = "n" then some (.listen k true) else none
+  | ["dt", k] => if k = "t" ∨ k = "o" ∨ k = "n" then some (.listen k false) else none
+  | ["at"] => some (.listen "to" true)
+  | ["dt"] => some (.listen "to" false)
+  | _ => (parseStep s).map .model
 
-/-- Execute the steps one by one; per step print what that step produced. -/
-def runShow (P : Env String) : St String → List Step → List String
-  | _, [] => []
-  | s, st :: rest =>
+def showStepOut (read : String) (s : St String) (tA oA : Bool) (notes : List (Note String))
+    (nested : List (Except Exc String)) : String :=
+  let sel (f : Note String → Bool) := "^".intercalate ((notes.filter f).map showNote)
+  s!"{read} c{s.calls} x[{"^".intercalate (nested.map showRes)}] s[{sel (·.toStatic)}] t[{sel (fun n => n.toDyn && tA)}] o[{sel (fun n => n.toDyn && oA)}] n[{sel (·.toObj)}] y[{sel (·.toAny)}]"
+
+/-- Execute the steps one by one; per step print what that step produced.
+`tA` / `oA`: the `on_trait_change(h, 'p')` / `observe(h, 'p')` listener is attached. -/
+def runShow (P : Env String) : St String → Bool → Bool → List DStep → List String
+  | _, _, _, [] => []
+  | s, tA, oA, .listen k on :: rest =>
+    let tA' := if k = "t" ∨ k = "to" then on else tA
+    let oA' := if k = "o" ∨ k = "to" then on else oA
+    let s' : St String :=
+      if k = "n" then step P s (if on then .attachObj else .detachObj)
+      else step P s (if tA' || oA' then .attach else .detach)
+    showStepOut "-" s' tA' oA' [] [] :: runShow P s' tA' oA' rest
+  | s, tA, oA, .model st :: rest =>
     let fresh := match st with | .construct _ => true | .copy => true | _ => false
     let s' := step P s st
     let read := match st with | .read => showRes (readProp P s).1 | _ => "-"
     let notes := if fresh then s'.notes else s'.notes.drop s.notes.length
     let nested := if fresh then s'.nested else s'.nested.drop s.nested.length
-    showStepOut read s' notes nested :: runShow P s' rest
+    let tA' := if fresh then false else tA
+    let oA' := if fresh then false else oA
+    showStepOut read s' tA' oA' notes nested :: runShow P s' tA' oA' rest
 
 def handle (line : String) : String :=
   match (clean line).splitOn "|" with
   | [shape, _n, steps] =>
-    match parseShape shape, (fields steps ";").mapM parseStep with
-    | some sh, some steps => " ; ".intercalate (runShow (mkEnv sh) { heap := fun _ => {} } steps)
+    match parseShape shape, (fields steps ";").mapM parseDStep with
+    | some sh, some steps => " ; ".intercalate (runShow (mkEnv sh) { heap := fun _ => {} } false false steps)
     | _, _ => "bad-case"
   | _ => "bad-case"
 
